@@ -298,11 +298,17 @@ Lemma binop_correct op lt rt st2 st' a b v :
 Proof.
   intros HC HE. unfold compile_binop in HC. unfold eval_binop in HE.
   destruct op;
+    try (destruct (val_equals a b) as [t|] eqn:EV; [|discriminate]; inversion HE; subst;
+         (eexists; split; [exact HC|]; split; [reflexivity|]; split; [reflexivity|]; split; [reflexivity|];
+          intros arg cs ls gs; cbn [pure_sem]; rewrite EV; reflexivity));
     try (destruct lt, rt; try discriminate; destruct a, b; try discriminate;
          cbn [num_binop str_binop] in HC;
          (eexists; split; [exact HC|]; split; [reflexivity|]; split; [reflexivity|]; split; [reflexivity|];
           intros arg cs ls gs; cbn [pure_sem num2 str2];
-          repeat match type of HE with context [if ?c then _ else _] => destruct c end;
+          repeat match type of HE with
+                 | context [if ?c then _ else _] => destruct c
+                 | context [match arr_repeat ?g ?r ?l with _ => _ end] => destruct (arr_repeat g r l)
+                 end;
           try discriminate; inversion HE; reflexivity)).
 Qed.
 
@@ -388,10 +394,29 @@ Proof.
   fold (flatp t). rewrite IH, <- app_assoc. reflexivity.
 Qed.
 
+(* an optional slice bound: the expression, or OpNone *)
+Definition oexpr_correct (o : oexpr) : Prop :=
+  forall env st st' v,
+    compile_oexpr true o st = COk st' -> eval_oexpr env o = Some v ->
+    csym st' = csym st /\
+    exists seg newc,
+      ccode st' = ccode st ++ seg /\ cconsts st' = cconsts st ++ newc /\
+      forall p s more pre post,
+        pcode p = pre ++ seg ++ post ->
+        pconsts p = map const_value (cconsts st') ++ more ->
+        ip s = N.of_nat (List.length pre) ->
+        vars_hold env (csym st) (locals s) (globals s) ->
+        N.of_nat (List.length (locals s)) + N.of_nat (List.length (ostack s)) + edepth_o o <= StackSize ->
+        run_to p s (List.length seg) v.
+
+Lemma edepth_o_pos o : 1 <= edepth_o o.
+Proof. destruct o; cbn [edepth_o]; [lia|apply edepth_pos]. Qed.
+
 Theorem compile_expr_correct_all :
   (forall e, efrag e = true -> expr_correct e) /\
   (forall l, efrag_list l = true -> elist_correct l) /\
-  (forall l, efrag_pairs l = true -> pairs_correct l) /\ (forall o : oexpr, True).
+  (forall l, efrag_pairs l = true -> pairs_correct l) /\
+  (forall o, efrag_o o = true -> oexpr_correct o).
 Proof.
   apply expr_mutind; try (intros; exact I).
   - (* ENum *) intros f HF; unfold expr_correct; intros env st st' v HC HE.
@@ -611,7 +636,59 @@ Proof.
     + unfold s2, s1; simpl; lia.
     + unfold s2, s1; simpl. apply HPS.
     + unfold s2, s1; simpl. pose proof (edepth_pos e2). lia.
-  - (* ESlice *) intros l _ a _ b _ HF. discriminate HF.
+  - (* ESlice *) intros l IHl a IHa b IHb HF; unfold expr_correct; intros env st st' v HC HE.
+    cbn [efrag] in HF. apply andb_true_iff in HF. destruct HF as [HF HF3]. apply andb_true_iff in HF. destruct HF as [HF1 HF2].
+    cbn [compile_expr] in HC.
+    apply bind_ok in HC; destruct HC as (c3 & HC3 & HC). apply bind_ok in HC3; destruct HC3 as (c2 & HC2 & HCb).
+    apply bind_ok in HC2; destruct HC2 as (c1 & HCl & HCa).
+    cbn [eval_expr] in HE. destruct (eval_expr env l) as [x|] eqn:El; [|discriminate].
+    destruct (eval_oexpr env a) as [va|] eqn:Ea; [|discriminate]. destruct (eval_oexpr env b) as [vb|] eqn:Eb; [|discriminate].
+    destruct (IHl HF1 env st c1 x HCl El) as (A1 & seg1 & newc1 & B1 & C1 & D1).
+    destruct (IHa HF2 env c1 c2 va HCa Ea) as (A2 & seg2 & newc2 & B2 & C2 & D2).
+    destruct (IHb HF3 env c2 c3 vb HCb Eb) as (A3 & seg3 & newc3 & B3 & C3 & D3).
+    assert (HPS : forall arg cs ls gs, pure_sem Slice arg cs ls gs [vb; va; x] = POk v).
+    { intros arg cs ls gs. cbn [pure_sem]. destruct (slice_value x va vb); inversion HE; reflexivity. }
+    destruct (noarg_step _ _ _ HC eq_refl) as (A' & B' & C').
+    split; [congruence|]. exists (seg1 ++ seg2 ++ seg3 ++ [N_of_opc Slice]), (newc1 ++ newc2 ++ newc3).
+    split; [rewrite C', B3, B2, B1, <- !app_assoc; reflexivity|].
+    split; [rewrite B', C3, C2, C1, <- !app_assoc; reflexivity|].
+    intros p s more pre post H1 H2 H4 H5 H6. cbn [edepth] in H6.
+    pose proof (edepth_o_pos a) as Pa. pose proof (edepth_o_pos b) as Pb.
+    assert (R1 : run_to p s (List.length seg1) x).
+    { eapply (D1 p s (map const_value (newc2 ++ newc3) ++ more) pre (seg2 ++ seg3 ++ [N_of_opc Slice] ++ post)).
+      - rewrite H1, <- !app_assoc. reflexivity.
+      - rewrite H2, B', C3, C2, !map_app, <- !app_assoc. reflexivity.
+      - exact H4.
+      - exact H5.
+      - lia. }
+    destruct R1 as (n1 & R1).
+    set (s1 := {| ip := ip s + N.of_nat (List.length seg1); ostack := x :: ostack s; locals := locals s; globals := globals s |}) in *.
+    assert (R2 : run_to p s1 (List.length seg2) va).
+    { eapply (D2 p s1 (map const_value newc3 ++ more) (pre ++ seg1) (seg3 ++ [N_of_opc Slice] ++ post)).
+      - rewrite H1, <- !app_assoc. reflexivity.
+      - rewrite H2, B', C3, map_app, <- app_assoc. reflexivity.
+      - unfold s1; simpl. rewrite H4, app_length. lia.
+      - unfold s1; simpl. rewrite A1. exact H5.
+      - unfold s1; cbn [ostack locals List.length]. lia. }
+    destruct R2 as (n2 & R2).
+    set (s2 := {| ip := ip s1 + N.of_nat (List.length seg2); ostack := va :: ostack s1; locals := locals s1; globals := globals s1 |}) in *.
+    assert (R3 : run_to p s2 (List.length seg3) vb).
+    { eapply (D3 p s2 more (pre ++ seg1 ++ seg2) ([N_of_opc Slice] ++ post)).
+      - rewrite H1, <- !app_assoc. reflexivity.
+      - rewrite H2, B'. reflexivity.
+      - unfold s2, s1; simpl. rewrite H4, !app_length. lia.
+      - unfold s2, s1; simpl. rewrite A2, A1. exact H5.
+      - unfold s2, s1; cbn [ostack locals List.length]. lia. }
+    destruct R3 as (n3 & R3).
+    set (s3 := {| ip := ip s2 + N.of_nat (List.length seg3); ostack := vb :: ostack s2; locals := locals s2; globals := globals s2 |}) in *.
+    exists (n1 + (n2 + (n3 + 1)))%nat. eapply vm_steps_trans; [exact R1|]. eapply vm_steps_trans; [exact R2|]. eapply vm_steps_trans; [exact R3|]. simpl.
+    rewrite (fetch_noarg p s3 Slice (pre ++ seg1 ++ seg2 ++ seg3) post);
+      [|rewrite H1, <- !app_assoc; reflexivity|unfold s3, s2, s1; simpl; rewrite H4, !app_length; lia|reflexivity].
+    rewrite (exec_pure p s3 Slice 0 _ 3 v eq_refl eq_refl).
+    + unfold s3, s2, s1; simpl. rewrite !app_length. simpl. f_equal. f_equal. lia.
+    + unfold s3, s2, s1; simpl; lia.
+    + unfold s3, s2, s1; simpl. exact (HPS 0 [] [] []).
+    + unfold s3, s2, s1; simpl. lia.
   - (* EGroup *) intros e IHe HF; unfold expr_correct; intros env st st' v HC HE.
     simpl in HF, HC, HE. destruct (IHe HF env st st' v HC HE) as (A & seg & newc & B & C & D).
     split; [exact A|]. exists seg, newc. split; [exact B|]. split; [exact C|]. exact D.
@@ -689,6 +766,17 @@ Proof.
     destruct R2 as (n2 & R2).
     exists (n0 + (n1 + n2))%nat. eapply vm_steps_trans; [exact R0|]. eapply vm_steps_trans; [exact R1|]. rewrite R2. unfold s1, s0; simpl.
     rewrite !app_length, <- !app_assoc. simpl. f_equal. f_equal. lia.
+  - (* ONoneE *) intros _ env st st' v HC HE. cbn [compile_oexpr] in HC. cbn [eval_oexpr] in HE. inversion HE; subst v.
+    destruct (noarg_step _ _ _ HC eq_refl) as (A & B & C).
+    split; [exact A|]. exists [N_of_opc ONone], []. split; [exact C|]. split; [rewrite app_nil_r; exact B|].
+    intros p s more pre post H1 H2 H4 _ H6. cbn [edepth_o] in H6. eapply run_one.
+    + rewrite (fetch_noarg p s ONone pre post H1 H4 eq_refl).
+      apply (exec_pure p s ONone _ _ 0 VNone); try reflexivity.
+      * simpl; lia.
+      * change (N.to_nat 0) with 0%nat. lia.
+    + reflexivity.
+  - (* OSome *) intros e IHe HF env st st' v HC HE. cbn [efrag_o] in HF. cbn [compile_oexpr] in HC. cbn [eval_oexpr edepth_o] in *.
+    exact (IHe HF env st st' v HC HE).
 Qed.
 
 Theorem compile_expr_correct_v : forall e, efrag e = true -> expr_correct e.
